@@ -299,8 +299,25 @@ fn build_cases(tier: Tier) -> Vec<(String, Vec<Case>)> {
         let gz = Arc::new(render(&small_callset(), Container::Bcf, &Layout::Fixed(64)));
         g.push(case(&["create", "--threads", t], &gz, "threads", format!("create --threads {t} on bcf")));
     }
-    for d in [",", "\t", "", "ab", " "] {
-        g.push(case(&["stat", "-s", "sum,s", "-d", d], &sp1, "delimiter", format!("stat -d {d:?}")));
+    // delimiters of 1..4 UTF-8 bytes (and illegal ones) x header x number of statistics x precision
+    for d in [",", "\t", "", "ab", " ", ";", "\u{e9}", "\u{2192}", "\u{2502}", "\u{1f600}", "\n"] {
+        for header in [false, true] {
+            for stats in ["sum", "sum,s", "sum,s,pi,theta"] {
+                for prec in [None, Some("2"), Some("0,1,2,3")] {
+                    if prec == Some("0,1,2,3") && stats != "sum,s,pi,theta" {
+                        continue;
+                    }
+                    let mut a = vec!["stat", "-s", stats, "-d", d];
+                    if header {
+                        a.push("-H");
+                    }
+                    if let Some(p) = prec {
+                        a.extend(["-p", p]);
+                    }
+                    g.push(case(&a, &sp1, "delimiter", format!("{} (delimiter {d:?})", a.join(" "))));
+                }
+            }
+        }
     }
     groups.push(("(iii) option values at and beyond bounds".into(), g));
 
